@@ -560,7 +560,7 @@ namespace Givaro {
     inline typename IntegerDom::Element Poly1FactorDom<Domain,Tag, RandomIterator>::order( const Rep& P, const Rep& F)  const
     {
         bool isproot = 0;
-        Rep A, G; mod(A,P,F);
+        Rep A, G; this->mod(A,P,F);
         Degree d;
         if ( this->degree(d, this->gcd(G,A,F)) == 0) {
             Residu_t MOD = _domain.residu();
